@@ -2,7 +2,10 @@ mod fmt;
 mod gen;
 mod ops;
 mod oracle;
+mod pgen;
 mod pkt;
+mod pktops;
+mod v3text;
 mod report;
 mod sio;
 mod tables;
